@@ -760,9 +760,12 @@ def part_b(chk, drv, impl):
             of_cache[k] = drv.ask1({"cmd": "namesOf", "parts": list(parts)})
         return of_cache[k]
 
+    failed = set()    # groups (table / alias / column) that already produced a failing input on this run
     for d in dialects:
         acc = {"ok": 0, "rejected": 0, "templates": 0}
         for group, tid, ref_sql, variants in sql_cases(chk, d):
+            if group in failed:
+                continue
             ref = run_sql(impl, ref_sql, d)
             stats["runs"] += 1
             if ref["status"] != "ok" or (not ref["paths"] and group != "table") or \
@@ -774,7 +777,7 @@ def part_b(chk, drv, impl):
                     chk.violation("two-statement chain s -> t -> u is not connected even for the plain lower-case spelling",
                                   {"kind": "sql", "dialect": d, "template": tid, "sql": ref_sql, "ref_sql": ref_sql,
                                    "mapping": {}, "got": ref})
-                    return stats
+                    failed.add(group)
                 continue
             acc["templates"] += 1
             for spelled_text, sql, mapping, roles in variants:
@@ -825,7 +828,8 @@ def part_b(chk, drv, impl):
                               f"same statement under the plain spelling (got vs prescribed): {json.dumps(diff)[:300]}",
                               {"kind": "sql", "dialect": d, "template": tid, "sql": sql, "ref_sql": ref_sql,
                                "mapping": mapping, "got": got, "want": want})
-                return stats
+                failed.add(group)
+                break
         stats["per_dialect"][d] = acc
     return stats
 
